@@ -16,7 +16,8 @@ type RootOptions struct {
 
 // AnalyzeRoot evaluates fn with unconstrained parameters (slices of any
 // length, integers anywhere in their type range) and records obligations.
-func (e *Engine) AnalyzeRoot(fn *ssa.Function, opt RootOptions) {
+func (e *Engine) AnalyzeRoot(fn *ssa.Function, opt RootOptions) []RootReturn {
+	var out []RootReturn
 	st := NewState(e)
 	for i, p := range fn.Params {
 		e.fresh(st, p)
@@ -60,6 +61,9 @@ func (e *Engine) AnalyzeRoot(fn *ssa.Function, opt RootOptions) {
 		}
 	}
 	rets, _ := e.Eval(fn, st, true, nil)
+	for _, r := range rets {
+		out = append(out, RootReturn{r.st, r.ret})
+	}
 	if e.Trace != nil {
 		for _, r := range rets {
 			e.trace("ROOT RETURN %s: %s", r.ret, r.st.String())
@@ -68,7 +72,7 @@ func (e *Engine) AnalyzeRoot(fn *ssa.Function, opt RootOptions) {
 	// conditional summary: error == nil  =>  len(slice parameter) >= k
 	n := fn.Signature.Results().Len()
 	if n == 0 || !isErrorType(fn.Signature.Results().At(n-1).Type()) {
-		return
+		return out
 	}
 	sp := -1
 	for i, p := range fn.Params {
@@ -77,7 +81,7 @@ func (e *Engine) AnalyzeRoot(fn *ssa.Function, opt RootOptions) {
 		}
 	}
 	if sp < 0 {
-		return
+		return out
 	}
 	sum := &FnSummary{Fn: fn, SliceParam: sp, MinLenOnNil: -1}
 	first := true
@@ -104,4 +108,5 @@ func (e *Engine) AnalyzeRoot(fn *ssa.Function, opt RootOptions) {
 		first = false
 	}
 	e.Summaries[fn] = sum
+	return out
 }
